@@ -357,6 +357,153 @@ func genWCNF(t *rapid.T) WCNFCase {
 	return c
 }
 
+// ---------------------------------------------------------------- long lines
+
+// LongCase is a text holding lines of more than 64 KiB (a clause or an objective over thousands of
+// variables), built from a few parameters so that its meaning is known by construction.
+type LongCase struct {
+	Format string `json:"format"` // opb | wcnf | explain
+	N      int    `json:"n"`      // variables
+	Repeat int    `json:"repeat"` // how many times the literal list of the long clause is repeated
+	A, B   int    `json:"a"`      // weights: w_i = 1 + (i*A+B)%9
+	Forced []int  `json:"forced"` // opb: variables forced true by unit constraints
+}
+
+func (c LongCase) w(i int) int { return 1 + (i*c.A+c.B)%9 }
+
+func checkLong(c LongCase, o *vf.Obs) error {
+	gs.Arm(0, 50_000_000)
+	defer gs.Arm(0, 0)
+	o.Class("format-" + c.Format)
+	var sb strings.Builder
+	longest := 0
+	line := func(s string) {
+		if len(s) > longest {
+			longest = len(s)
+		}
+		sb.WriteString(s)
+		sb.WriteString("\n")
+	}
+	var lits strings.Builder
+	switch c.Format {
+	case "opb":
+		var obj strings.Builder
+		obj.WriteString("min:")
+		for i := 1; i <= c.N; i++ {
+			fmt.Fprintf(&obj, " +%d x%d", c.w(i), i)
+		}
+		obj.WriteString(" ;")
+		line(obj.String())
+		for i := 1; i <= c.N; i++ {
+			fmt.Fprintf(&lits, "+1 x%d ", i)
+		}
+		line(lits.String() + ">= 1 ;")
+		want := 0
+		for _, f := range c.Forced {
+			line(fmt.Sprintf("+1 x%d >= 1 ;", f))
+		}
+		seen := map[int]bool{}
+		for _, f := range c.Forced {
+			if !seen[f] {
+				want += c.w(f)
+				seen[f] = true
+			}
+		}
+		if len(c.Forced) == 0 {
+			want = 10
+			for i := 1; i <= c.N; i++ {
+				if c.w(i) < want {
+					want = c.w(i)
+				}
+			}
+		}
+		o.ClassIf(longest > 65536, "line>64KiB")
+		if longest > 65536 {
+			o.Nontrivial()
+		}
+		pb, err := solver.ParseOPB(strings.NewReader(sb.String()))
+		if err != nil {
+			return fmt.Errorf("ParseOPB returns an error on a well-formed text whose longest line has %d bytes: %v", longest, err)
+		}
+		if pb.NbVars != c.N {
+			return fmt.Errorf("ParseOPB: NbVars=%d, the text has %d variables (longest line %d bytes)", pb.NbVars, c.N, longest)
+		}
+		res := solver.New(pb).Optimal(nil, nil)
+		if res.Status != solver.Sat || res.Weight != want {
+			return fmt.Errorf("ParseOPB+Optimal = (%v, %d) on a text with a %d-byte line, the optimum is %d by construction", res.Status, res.Weight, longest, want)
+		}
+	case "wcnf":
+		// hard: the long clause (x1 or ... or xN, literals repeated); soft: (not x_i) with weight w_i for every i
+		top := 10*c.N + 1
+		sb.WriteString(fmt.Sprintf("p wcnf %d %d %d\n", c.N, c.N+1, top))
+		fmt.Fprintf(&lits, "%d", top)
+		for r := 0; r < c.Repeat; r++ {
+			for i := 1; i <= c.N; i++ {
+				fmt.Fprintf(&lits, " %d", i)
+			}
+		}
+		line(lits.String() + " 0")
+		want := 10
+		for i := 1; i <= c.N; i++ {
+			line(fmt.Sprintf("%d -%d 0", c.w(i), i))
+			if c.w(i) < want {
+				want = c.w(i)
+			}
+		}
+		o.ClassIf(longest > 65536, "line>64KiB")
+		if longest > 65536 {
+			o.Nontrivial()
+		}
+		s, err := maxsat.ParseWCNF(strings.NewReader(sb.String()))
+		if err != nil {
+			return fmt.Errorf("ParseWCNF returns an error on a well-formed text whose longest line has %d bytes: %v", longest, err)
+		}
+		res := s.Optimal(nil, nil)
+		if res.Status != solver.Sat || res.Weight != want {
+			return fmt.Errorf("ParseWCNF+Optimal = (%v, %d) on a text with a %d-byte hard clause, the optimum is %d by construction (0 means the hard clause was lost)", res.Status, res.Weight, longest, want)
+		}
+	case "explain":
+		sb.WriteString(fmt.Sprintf("p cnf %d 2\n", c.N))
+		var want []int
+		for r := 0; r < c.Repeat; r++ {
+			for i := 1; i <= c.N; i++ {
+				fmt.Fprintf(&lits, "%d ", i)
+				want = append(want, i)
+			}
+		}
+		line(lits.String() + "0")
+		line("-1 0")
+		o.ClassIf(longest > 65536, "line>64KiB")
+		if longest > 65536 {
+			o.Nontrivial()
+		}
+		pb, err := explain.ParseCNF(strings.NewReader(sb.String()))
+		if err != nil {
+			return fmt.Errorf("explain.ParseCNF returns an error on a well-formed text whose longest line has %d bytes: %v", longest, err)
+		}
+		if len(pb.Clauses) != 2 || !reflect.DeepEqual(pb.Clauses[0], want) {
+			return fmt.Errorf("explain.ParseCNF: the %d-literal clause (a %d-byte line) was not read back as written (%d clauses read)", len(want), longest, len(pb.Clauses))
+		}
+	}
+	return nil
+}
+
+func genLong(t *rapid.T) LongCase {
+	c := LongCase{Format: rapid.SampledFrom([]string{"opb", "wcnf", "explain"}).Draw(t, "format")}
+	c.A, c.B = rapid.IntRange(1, 8).Draw(t, "a"), rapid.IntRange(0, 8).Draw(t, "b")
+	switch c.Format {
+	case "opb":
+		c.N = gen.Uniform(t, 7600, 9500, "n") // the objective line passes 64 KiB from about 6000 variables
+		for i, k := 0, rapid.IntRange(0, 3).Draw(t, "forced"); i < k; i++ {
+			c.Forced = append(c.Forced, gen.Uniform(t, 1, c.N, "f"))
+		}
+	default:
+		c.N = gen.Uniform(t, 200, 1000, "n")
+		c.Repeat = 20000/c.N + rapid.IntRange(0, 12).Draw(t, "repeat") // about 5 bytes per literal: mostly beyond 64 KiB
+	}
+	return c
+}
+
 func min(a, b int) int {
 	if a < b {
 		return a
@@ -384,7 +531,9 @@ func init() {
 			Rule: "OPB text written from a PB problem (coefficients of either sign, >= / = / <= (as negated >=), trivially true/false constraints, optional min: line with signed coefficients) with layout knobs: '*' comments, explicit '+' or not, several blanks, CRLF, blank lines, optional final newline, and the zero-space forms the grammar allows ('>=0', '0;', 'min:+1'); oracle: parsed problem evaluated without solving has the text's models; Optimal = brute-force optimum; for up to 3 drawn assignments the text extended with unit constraints pinning the assignment yields exactly that assignment's cost, or Unsat when it violates a constraint; non-trivial as above"}
 	subWCNF = vf.Sub[WCNFCase]{Name: "wcnf", Quick: 8000, Thorough: 100000, Gen: genWCNF, Check: checkWCNF, Floor: 0.3,
 			Rule: "WCNF text (p wcnf V C [top], one weighted clause per line) with 'c' comments, several blanks, CRLF, optional final newline; oracle: Optimal = brute-force minimum weight of violated soft clauses; pinned assignments (unit hard clauses) give their exact cost or Unsat; non-trivial as above"}
-	vf.Register(subDimacsSolver, subDimacsExplain, subOPB, subWCNF)
+	subLong := vf.Sub[LongCase]{Name: "long-lines", Quick: 10, Thorough: 40, Gen: genLong, Check: checkLong, Floor: 0,
+		Rule: "texts with a line of more than 64 KiB: an OPB objective / clause over 3000..9000 variables, a WCNF hard clause or a DIMACS clause (for explain.ParseCNF) whose literal list is repeated; the meaning is known by construction (optimum = weight of the forced variables, or the smallest weight; clause list read back as written); non-trivial = the longest line exceeds 65536 bytes"}
+	vf.Register(subDimacsSolver, subDimacsExplain, subOPB, subWCNF, subLong)
 }
 
 func TestMain(m *testing.M)   { vf.Main(m, "C13") }
